@@ -283,6 +283,36 @@ class LedgerGen:
         self.tags.add("scripted-record-after-storage")
         self.tags.add("rollback")
 
+    def scripted_code_overwrite(self):
+        """a contract account gets another code and is read between the flush and the commit of that block — through the account
+        cache, the code cache and (after the commit and a reopen) the database; in one variant the old code is written back in that
+        window and must be what every later read returns"""
+        r = self.r
+        a = r.choice(ACCTS)
+        c1, c2 = r.sample(list(CODES), 2)
+        self.plain_block([f"setcode {a} {c1} {CODES[c1]}"])
+        self.ops.append(f"code {a}")
+        self.ops += [f"setcode {a} {c2} {CODES[c2]}", "finalise", "flush"]
+        self.ops.append(f"code {a}")                 # between flush and commit
+        self.ops.append(f"codehash {a}")
+        back = r.random() < 0.5
+        if back:
+            self.ops += [f"setcode {a} {c1} {CODES[c1]}", "finalise"]
+            self.ops.append(f"code {a}")
+        self.height += 1
+        self.ops.append(f"commit {self.height}")
+        self.ops.append(f"code {a}")
+        if back:
+            self.ops.append("flush")
+            self.height += 1
+            self.ops.append(f"commit {self.height}")
+            self.ops.append(f"code {a}")
+        if r.random() < 0.5:
+            self.ops.append("reopen")
+            self.ops.append(f"code {a}")
+            self.ops.append(f"codehash {a}")
+        self.tags.add("scripted-code-overwrite" + (":written-back" if back else ""))
+
     def scripted_fork_rollback(self):
         """beyond the journal window: roll back a few blocks, commit a different continuation (its pruning bound lies below the
         retained minimum), then ask for a target below the window: refused, and nothing may have moved"""
@@ -319,6 +349,8 @@ class LedgerGen:
                 self.scripted_rollback()
             if rollbacks and self.r.random() < 0.05:
                 self.scripted_record_after_storage()
+            if self.r.random() < 0.06:
+                self.scripted_code_overwrite()
         self.dump()
         return History(self.ops, tags=self.tags)
 
@@ -418,12 +450,14 @@ def mon_ledger(h, obs, prop):
     unknown_at = {}          # height -> keys that were unknown when that height was committed
     jmin = 0                 # lowest height whose journal is retained (0 = none yet)
     unflushed = False        # writes since the last flush
+    flushed, flushed_unknown = None, set()     # the reference state at the last flush: what the coming commit persists
     uncommitted = False      # a flush that was not committed yet
     next_commit = 1
     for op, o in zip(h.ops, obs):
         ws = op.split()
         k0 = ws[0]
         if k0 == "open":
+            flushed, flushed_unknown = None, set()
             continue
         # ops that legitimately lose uncommitted data (only the shrinker produces them in these places):
         # the reference cannot follow, so monitoring of this history stops here
@@ -435,6 +469,9 @@ def mon_ledger(h, obs, prop):
             unflushed = True
         if k0 == "flush":
             unflushed, uncommitted = False, True
+            # what the coming commit persists is what was flushed: writes made between the flush and the commit belong to
+            # the next block (the executor runs ahead of the committer)
+            flushed, flushed_unknown = ref.freeze(), set(unknown)
         if k0 in ("set", "add", "del"):
             a, k = ws[1], ws[2]
             # an empty value is no value: since the fix: commit "a storage key with an empty value does not exist" writing
@@ -488,8 +525,9 @@ def mon_ledger(h, obs, prop):
         elif k0 == "commit":
             if o == "ok":
                 ref.height = int(ws[1])
-                ref.committed[ref.height] = ref.freeze()
-                unknown_at[ref.height] = set(unknown)
+                ref.committed[ref.height] = flushed if flushed is not None else ref.freeze()
+                unknown_at[ref.height] = flushed_unknown if flushed is not None else set(unknown)
+                flushed = None
                 dirty_keys, added_keys = set(), set()
                 uncommitted = False
                 next_commit = ref.height + 1
